@@ -45,8 +45,11 @@ try:
     vdir = tempfile.mkdtemp(prefix="seedv-")
     shutil.copy("/verif/known_findings.json", vdir)
     caught = {}
+    only = os.environ.get("SEED_ONLY_OWN")
     for c in man["checks"]:
         pid = c["property_id"]
+        if only and pid != seed_id.split("-")[0]:
+            continue
         p = subprocess.run(["/verif/bin/cedarcheck", "-property", pid, "-repo", wt, "-verif", vdir], capture_output=True, text=True)
         if p.returncode != 0:
             caught[pid] = [l.strip() for l in p.stdout.splitlines() if l.strip().startswith(("VIOLATION ", "UNDECIDED "))][:6]
